@@ -174,7 +174,7 @@ func binCase(t *vlib.T, fam string, data []byte, detail interface{}) {
 		return
 	}
 	d := append([]byte{}, data...)
-	t.Case(key, func() *vlib.Outcome { return runBinCase(fam, d, detail) })
+	tcase(t, key, func() *vlib.Outcome { return runBinCase(fam, d, detail) })
 }
 
 func runBin(t *vlib.T) {
